@@ -2,7 +2,7 @@
 """Copy verified file-directed seeded changes from /tmp/mutants/G<k>/<x>/ into /verif/seeded/<property>-g<k><x>/ (the property is
 the one the agent named in meta.json)."""
 import glob, json, os, shutil
-for d in sorted(glob.glob('/tmp/mutants/[GHI]?/[a-d]')):
+for d in sorted(glob.glob('/tmp/mutants/[GHIJK]?/[a-d]')):
     v = os.path.join(d, 'verified.json')
     if not os.path.exists(v):
         continue
@@ -17,7 +17,8 @@ for d in sorted(glob.glob('/tmp/mutants/[GHI]?/[a-d]')):
     os.makedirs(out, exist_ok=True)
     shutil.copy(os.path.join(d, 'patch.diff'), out)
     shutil.copy(os.path.join(d, 'demo.rs'), out)
-    meta['round'] = 'file-directed (wave 6): the agent was given a group of files and all property statements and chose the property'
+    meta.setdefault('round', 'file-directed (wave 6)') if False else None
+    meta['round'] = 'file-directed (waves 6-10): the agent was given a group of files and all property statements and chose the property'
     meta['confirmed_by_me'] = {
         'how': 'selftest/verify_mutant.sh in a scratch git worktree of /repo (removed afterwards): patch applied, full suite run, demo run with and without the change',
         **{k: ver[k] for k in ('suite_passed', 'suite_failed', 'demo_with_change', 'demo_without_change', 'repo_head') if k in ver},
